@@ -7,7 +7,7 @@
    [Some] tokens in which v is one word [W v].  [cmd_ok c ts] says the caller's own command text c
    (" ".join(command), shell text by design) lexes to ts; [cmd_ok_quoted] shows it holds when the caller
    quoted its arguments with shlex.quote. *)
-From Coq Require Import List NArith Bool.
+From Coq Require Import List NArith Bool Ascii.
 From SF Require Import Base.Str Base.Dec Shell.Model Shell.Proofs Frame.Model Frame.Proofs.
 Import ListNotations.
 Local Open Scope list_scope. Local Open Scope string_scope.
@@ -78,6 +78,12 @@ Theorem C25_framing : forall marker out code,
   acc ++ cat chunks = out ++ (marker ++ ":") ++ dec code ++ String nl "" ->
   read_with_output marker acc (map Chunk chunks ++ rest)%list = (inl (py_strip out, code), rest).
 Proof. exact read_chunks. Qed.
+
+(* the hypothesis of C25_framing follows from: the marker contains no ':' (it is SF_CMD_END_<hex>) and
+   marker":" is not a substring of the output *)
+Theorem C25_marker_free : forall marker, has_char ":"%char marker = false ->
+  forall out t, cut (marker ++ ":") out = None -> no_early (marker ++ ":") out t = true.
+Proof. exact no_early_intro. Qed.
 
 (* ---- a sequence of commands on one persistent shell, none timing out: every command is started once
         and returns exactly what a fresh process returns, (strip out, code); with or without a trailing
@@ -150,6 +156,7 @@ Print Assumptions C25_shell_plain.
 Print Assumptions C25_template_env_refuted.
 Print Assumptions C25_raw_workdir_refuted.
 Print Assumptions C25_framing.
+Print Assumptions C25_marker_free.
 Print Assumptions C25_sequence.
 Print Assumptions C25_after_timeout_refuted.
 Print Assumptions C25_exactly_once_after_timeout_refuted.
